@@ -595,6 +595,15 @@ def applyLater (alnum : Char → Bool) (cfg : Cfg) (st : State) : List Later →
   | [] => st
   | l :: ls => applyLater alnum cfg (applyOne alnum cfg st l) ls
 
+/-- Does a later operation give `id` a permission entry for `et` again (GRANT naming both, or
+a direct `grant_permission` / `revoke_permission` call on that pair — the latter *removes* the
+explicit denial and so re-exposes role-based access)? -/
+def regrants (id et : Str) : Later → Bool
+  | .cmd (.grant _ ets u) => u == id && ets.contains et
+  | .setPerm u e _ => u == id && e == et
+  | .dropPerm u e => u == id && e == et
+  | _ => false
+
 def isHex (c : Char) : Bool :=
   (48 ≤ c.toNat && c.toNat ≤ 57) || (97 ≤ c.toNat && c.toNat ≤ 102)
 
